@@ -1,0 +1,42 @@
+//go:build verif
+
+// Contracts for package encoding, read by /verif/govc. Comments only.
+
+package encoding
+
+// Decompression is bounded by construction: pooled output buffers have exactly the 1 MiB capacity, the decoder is built
+// with that memory limit and told to stay within the capacity of the buffer it is handed, and Decode hands it the pooled
+// buffer emptied. Encode refuses what Decode could not take back. (Checked on the chain exchange instantiation; the
+// other instantiations share the generic source.)
+//@ func init$1
+//@   property C14
+//@   modifies auto
+//@   at return 0
+//@     before[pooled_buffers_have_the_full_one_mib] len(buf) == 1048576 && cap(buf) == 1048576 && arg(0) == &buf
+
+//@ func github.com/filecoin-project/go-f3/internal/encoding.NewZSTD[*chainexchange.Message]
+//@   property C14
+//@   modifies auto
+//@   maypanic
+//@   at NewReader 1
+//@     before[decoder_limited_to_one_mib_and_to_the_buffer_capacity] len(arg(1)) == 2 && arg(1)[0] == res(WithDecoderMaxMemory, 1) && argOf(WithDecoderMaxMemory, 1, 0) == 1048576 && arg(1)[1] == res(WithDecodeAllCapLimit, 1) && argOf(WithDecodeAllCapLimit, 1, 0)
+//@   at return 0
+//@     before[the_decoder_built_here_is_the_one_used] arg(1) == nil ==> arg(0).decompressor == res(NewReader, 1, 0) && arg(0).compressor == res(NewWriter, 1, 0)
+
+//@ func github.com/filecoin-project/go-f3/internal/encoding.(*ZSTD[*Message]).Encode[*github.com/filecoin-project/go-f3/chainexchange.Message]
+//@   property C14
+//@   modifies auto
+//@   maypanic bounds the output buffer is sized by the compression library's MaxEncodedSize
+//@   at MaxEncodedSize 1
+//@     before[only_values_that_can_be_decompressed_again_are_compressed] len(decompressed) <= 1048576 && res(Encode, 2, 1) == nil && decompressed == res(Encode, 2, 0)
+//@   at EncodeAll 1
+//@     before[compresses_the_cbor_encoding] arg(1) == decompressed && len(arg(2)) == 0
+
+//@ func github.com/filecoin-project/go-f3/internal/encoding.(*ZSTD[*Message]).Decode[*github.com/filecoin-project/go-f3/chainexchange.Message]
+//@   property C14
+//@   modifies auto
+//@   maypanic
+//@   at DecodeAll 1
+//@     before[decompresses_into_the_emptied_pooled_buffer] arg(0) == c.decompressor && arg(1) == compressed && len(arg(2)) == 0 && arg(2) == (*buf)[0:0]
+//@   at Decode 2
+//@     before[decodes_exactly_what_was_decompressed] res(DecodeAll, 1, 1) == nil && arg(1) == res(DecodeAll, 1, 0) && arg(2) == t
